@@ -43,7 +43,7 @@ QMulti   == [id |-> 5, parse |-> "ok", stmts |-> <<StOk0, StOk0>>]
 QZero    == [id |-> 6, parse |-> "ok", stmts |-> <<>>]
 QBlank   == [id |-> 7, parse |-> "blank", stmts |-> <<>>]
 
-ParseScripts == {QOk(StOk1), QOk(StFail), QErr, QOk(StPanic)} \cup (IF Rich THEN {QOk(StOk0), QMulti, QZero} ELSE {})
+ParseScripts == {QOk(StOk1), QOk(StFail), QErr, QOk(StPanic)} \cup (IF Rich THEN {QOk(StOk0), QMulti, QZero, QBlank} ELSE {})
 
 Alphabet ==
     {[t |-> "P", name |-> n, q |-> q, noids |-> 0] : n \in Names, q \in ParseScripts}
